@@ -12,6 +12,7 @@ import (
 	"sort"
 	"strings"
 	"time"
+	"unicode"
 
 	"github.com/btcsuite/btcutil/base58"
 	tmsecp "github.com/cometbft/cometbft/crypto/secp256k1"
@@ -301,26 +302,39 @@ func b2v(b bool) Verdict {
 	return Invalid
 }
 
-func methodIDOK(id, did string) bool {
+func methodIDOK(id, did string) bool { return methodIDVerdict(id, did) != Invalid }
+
+// methodIDVerdict: '<did>#<1-128 non-space>'. ASCII white space (space, \t, \n, \f, \r) is "space" beyond doubt;
+// whether \v and Unicode spaces (NBSP, U+0085, U+2003 ...) count is left open by the documents.
+func methodIDVerdict(id, did string) Verdict {
 	p := did + "#"
 	if !strings.HasPrefix(id, p) {
-		return false
+		return Invalid
 	}
 	suf := id[len(p):]
-	return len(suf) >= 1 && len(suf) <= 128 && reNoSpace.MatchString(suf)
+	if len(suf) < 1 || len(suf) > 128 || strings.ContainsAny(suf, " \t\n\f\r") {
+		return Invalid
+	}
+	for _, r := range suf {
+		if unicode.IsSpace(r) {
+			return Unjudged
+		}
+	}
+	return Valid
 }
 
 func vmOK(vm *didtypes.VerificationMethod, did string) Verdict {
 	if vm == nil {
 		return Invalid
 	}
-	if !methodIDOK(vm.Id, did) || vm.Type == "" || !reBase58.MatchString(vm.PublicKeyBase58) {
+	mv := methodIDVerdict(vm.Id, did)
+	if mv == Invalid || vm.Type == "" || !reBase58.MatchString(vm.PublicKeyBase58) {
 		return Invalid
 	}
 	if !namedKeyTypes[vm.Type] {
 		return Unjudged // unknown key-type strings: the documents leave it open
 	}
-	return Valid
+	return mv
 }
 
 func relsOK(doc *didtypes.DIDDocument, rels []didtypes.VerificationRelationship) Verdict {
@@ -331,8 +345,11 @@ func relsOK(doc *didtypes.DIDDocument, rels []didtypes.VerificationRelationship)
 			r = and(r, vmOK(vm, doc.Id))
 		} else {
 			id := rel.GetVerificationMethodId()
-			if !methodIDOK(id, doc.Id) {
+			switch methodIDVerdict(id, doc.Id) {
+			case Invalid:
 				return Invalid
+			case Unjudged:
+				r = Unjudged
 			}
 			found := false
 			for _, vm := range doc.VerificationMethods {
